@@ -62,7 +62,9 @@ def matrix_tables():
         return "(seeded/MATRIX.json not present)"
     m = json.load(open(mp))
     lines = []
-    for rnd, title in ((1, "Round 1"), (2, "Round 2 (a second change per property, steered to a different anchor)")):
+    for rnd, title in ((1, "Round 1"), (2, "Round 2 (a second change per property, steered to a different anchor)"),
+                       (3, "Round 3 (agents were told the ideas already used and asked for a different mechanism and input shape; library properties first, CLI properties later)"),
+                       (4, "Round 4 (library properties only; same instruction, three used ideas listed)")):
         lines.append("**%s** - every check of the relevant half (library properties C01-C12 for changes under `src/` outside `src/cli`, "
                      "CLI properties C13-C20 otherwise) run against every change; `V` = VIOLATION with a concrete replay input, "
                      "`v` = VIOLATION … no-failing-input-found (an obligation or a correspondence broke, e.g. a new unclassified panic site), `.` = quiet.\n" % title)
